@@ -318,7 +318,7 @@ fn parse_name_case(which: usize) {
     kani::cover!(b >= 0x80, "non-UTF-8 byte inside the name");
 }
 
-// @harness name=c17_parse_name_max_conns props=C17,C04 tier=quick timeout=1500
+// @harness name=c17_parse_name_max_conns props=C17,C04 tier=quick timeout=2400
 // @bound FCGI_MAX_CONNS: exact, truncated, empty, extended by one symbolic byte, and with ONE byte at a symbolic position replaced by any other value (incl. non-UTF-8)
 // @functions ProtocolVariables::parse_name, bitflags from_name
 #[kani::proof]
